@@ -18,6 +18,7 @@ import z3
 from .contracts import Contract, LoopSpec, Registry
 from .front import FuncInfo, Repo
 from .solve import Obligation
+from .values import ForAllP
 from .values import (ANYOBJ, BOOL, DICT, FALSE, INT, NONE, OBJ, SEQ, SETOF, STR, STR_CID, TRUE, TUP, MapV, Obj, SeqV,
                      SV, Ty, class_of, default_flat, flat_sorts, fresh_name, fresh_sv, from_flat, is_false, is_true,
                      ite_sv, none_sv, obj_id, parse_type, strval, to_flat, unify)
@@ -429,7 +430,7 @@ class Engine:
                 self.wf(st, x)
         elif k == "dict" and sv.ty.elts[1].kind == "seq":
             kk = z3.Const(fresh_name("wk"), sv.v.arrs[1].sort().domain())
-            st.assume(z3.ForAll([kk], And(z3.Select(sv.v.arrs[1], kk) >= 0, Not(z3.Select(sv.v.arrs[0], kk))),
+            st.assume(ForAllP([kk], And(z3.Select(sv.v.arrs[1], kk) >= 0, Not(z3.Select(sv.v.arrs[0], kk))),
                                 patterns=[z3.Select(sv.v.arrs[1], kk)]))
 
     def assume_alive(self, st: State, sv: SV):
@@ -530,7 +531,7 @@ class Engine:
         j = z3.Int(fresh_name("j"))
         st.assume(out.v.len == n)
         for a, b in zip(out.v.arrs, sv.v.arrs):
-            st.assume(z3.ForAll([j], Implies(And(j >= 0, j < n), z3.Select(a, j) == z3.Select(b, j + lo)),
+            st.assume(ForAllP([j], Implies(And(j >= 0, j < n), z3.Select(a, j) == z3.Select(b, j + lo)),
                                 patterns=[z3.Select(a, j)]))
         out.tag = ("slice", sv, lo, hi)
         return out
@@ -591,7 +592,8 @@ class Engine:
                 if name in self.repo.consts[m2]:
                     node = self.repo.consts[m2][name]
         if node is not None:
-            lit = self.literal(node)
+            # regex constants are kept symbolic (G_<NAME>): facts about them are regex lemmas keyed by name
+            lit = None if name.endswith("_REGEX") else self.literal(node)
             if lit is not None:
                 return lit
             key = f"G.{name}"
@@ -603,7 +605,7 @@ class Engine:
                     raise Unsupported(f"module global {name} is not a literal and has no declared type")
                 self.globals_sym[key] = SV(gty, z3.Const(f"G_{name}", flat_sorts(gty)[0]), tag=("global", name))
             return self.globals_sym[key]
-        tgt = self.repo.imports.get(mod, {}).get(name)
+        tgt = self.repo.imports.get(mod, {}).get(name) or getattr(self, "local_imports", {}).get(name)
         q = tgt if tgt else f"{mod}.{name}"
         if q in self.repo.funcs:
             return SV(Ty("func"), None, tag=("func", q))
@@ -650,6 +652,14 @@ class Engine:
             hint = getattr(self, "_list_hint", None)
             return self.seq_from_items([], hint.elts[0] if hint and hint.kind == "seq" else None)
         return self.seq_from_items(items)
+
+    def ev_Dict(self, n, st):
+        items = {}
+        for k, v in zip(n.keys, n.values):
+            if not (isinstance(k, ast.Constant) and isinstance(k.value, str)):
+                raise Unsupported("dict literal with non-constant key")
+            items[k.value] = self.ev(v, st)
+        return SV(Ty("dictlit"), items)
 
     def ev_Attribute(self, n, st):
         if isinstance(n.value, ast.Name) and n.value.id == "G" and "G" not in st.store:
@@ -855,10 +865,10 @@ class Engine:
         j = z3.Int(fresh_name("j"))
         st.assume(out.v.len == a.v.len + b.v.len)
         for o, x, y in zip(out.v.arrs, a.v.arrs, b.v.arrs):
-            st.assume(z3.ForAll([j], Implies(And(j >= 0, j < a.v.len), z3.Select(o, j) == z3.Select(x, j)),
+            st.assume(ForAllP([j], Implies(And(j >= 0, j < a.v.len), z3.Select(o, j) == z3.Select(x, j)),
                                 patterns=[z3.Select(o, j)]))
-            st.assume(z3.ForAll([j], Implies(And(j >= 0, j < b.v.len), z3.Select(o, j + a.v.len) == z3.Select(y, j)),
-                                patterns=[z3.Select(y, j)]))
+            st.assume(ForAllP([j], Implies(And(j >= a.v.len, j < a.v.len + b.v.len), z3.Select(o, j) == z3.Select(y, j - a.v.len)),
+                                patterns=[z3.Select(o, j)]))
         return out
 
     def ev_UnaryOp(self, n, st):
@@ -1095,7 +1105,7 @@ class Engine:
             # pure map: same length, element-wise
             st.assume(out.v.len == src.v.len)
             vflat0 = to_flat(val)
-            st.assume(z3.ForAll([i], Implies(And(i >= 0, i < src.v.len), And(*[z3.Select(a, i) == c for a, c in zip(out.v.arrs, vflat0)])),
+            st.assume(ForAllP([i], Implies(And(i >= 0, i < src.v.len), And(*[z3.Select(a, i) == c for a, c in zip(out.v.arrs, vflat0)])),
                                 patterns=[z3.Select(out.v.arrs[0], i)]))
             out.tag = ("map", src, i, val)
             return out
@@ -1110,10 +1120,10 @@ class Engine:
         sub = [(i, emb(j))]
         body = And(emb(j) >= 0, emb(j) < src.v.len, z3.substitute(cond, *sub),
                    *[z3.Select(a, j) == z3.substitute(c, *sub) for a, c in zip(out.v.arrs, vflat)])
-        st.assume(z3.ForAll([j], Implies(And(j >= 0, j < m), body), patterns=[emb(j)]))
-        st.assume(z3.ForAll([j, j2], Implies(And(j >= 0, j < j2, j2 < m), emb(j) < emb(j2)), patterns=[z3.MultiPattern(emb(j), emb(j2))]))
+        st.assume(ForAllP([j], Implies(And(j >= 0, j < m), body), patterns=[emb(j)]))
+        st.assume(ForAllP([j, j2], Implies(And(j >= 0, j < j2, j2 < m), emb(j) < emb(j2)), patterns=[z3.MultiPattern(emb(j), emb(j2))]))
         # every source index passing the filter is hit
-        st.assume(z3.ForAll([i], Implies(And(i >= 0, i < src.v.len, cond), And(inv(i) >= 0, inv(i) < m, emb(inv(i)) == i)),
+        st.assume(ForAllP([i], Implies(And(i >= 0, i < src.v.len, cond), And(inv(i) >= 0, inv(i) < m, emb(inv(i)) == i)),
                             patterns=[inv(i)]))
         out.tag = ("comp", src, emb, inv, cond, i)
         if kind == "set":
@@ -1353,6 +1363,11 @@ class Engine:
         return [Outcome("normal", st)]
 
     def st_ImportFrom(self, s, st):
+        if s.module and s.module.startswith("eyecite"):
+            mod = s.module.split(".")[-1]
+            li = self.__dict__.setdefault("local_imports", {})
+            for a in s.names:
+                li[a.asname or a.name] = f"{mod}.{a.name}"
         return [Outcome("normal", st)]
 
     def st_Assign(self, s, st):
